@@ -28,10 +28,39 @@ def model_line(m, ops, nids):
     return m.ask("listops %d %s" % (nids + 2, ";".join(",".join(str(v) for v in o) for o in ops)))
 
 
-def py_apply(L, o):
-    """abstract list semantics inside the contract; returns the new list or None when the op leaves the contract / is not judged"""
+def py_apply(L, o, NL=None, CNT=None):
+    """abstract list semantics inside the contract; returns the new list or None when the op leaves the contract / is not judged.
+    NL / CNT (chunk -> is newline / nl_count) are kept up to date when given; SwapLines is judged only with them."""
     k = o[0]
     L = list(L)
+    if k in "AB" and NL is not None:
+        NL[o[1]], CNT[o[1]] = bool(o[3]), o[4]
+    if k == "L" and NL is not None:
+        _, a, b = o
+        if NL.get(a) or NL.get(b):
+            return None
+        lines, cur = [], []
+        for x in L:
+            cur.append(x)
+            if NL.get(x):
+                lines.append(cur)
+                cur = []
+        if cur:
+            lines.append(cur)
+        ia = [i for i, ln in enumerate(lines) if a in ln][0]
+        ib = [i for i, ln in enumerate(lines) if b in ln][0]
+        if ia == ib:
+            return L
+        la, lb = lines[ia], lines[ib]
+        wa, na = ([x for x in la if not NL.get(x)], [x for x in la if NL.get(x)])
+        wb, nb = ([x for x in lb if not NL.get(x)], [x for x in lb if NL.get(x)])
+        # the words of the two lines change places; the two newline chunks change places too and exchange their counts, so the spacing stays where it was
+        if na and nb:
+            CNT[na[0]], CNT[nb[0]] = CNT[nb[0]], CNT[na[0]]
+            lines[ia], lines[ib] = wb + nb, wa + na
+        else:
+            lines[ia], lines[ib] = wb + na, wa + nb
+        return [x for ln in lines for x in ln]
     if k in "AB":
         _, n, r, nl, c = o
         if r == 0:
@@ -67,11 +96,12 @@ GUARD_QUERIES = []
 def gen_scenario(r, m, maxlen):
     """returns (ops, expected abstract list or None, number of ids)"""
     ops, L, nl, exp = [], [], {}, []
+    eNL, eCNT = {}, {}
     nid = 0
     n_ops = r.randint(3, maxlen)
     in_contract = r.random() < 0.5        # half of the scenarios stay inside the contract of the theorems and are judged against the Python list
     for _ in range(n_ops):
-        choice = r.random() * (0.80 if in_contract else 1.0)
+        choice = r.random()
         if len(L) < 2 or choice < 0.30:
             nid += 1
             isnl = 1 if (L and r.random() < 0.3) else 0
@@ -98,7 +128,9 @@ def gen_scenario(r, m, maxlen):
                     k0 += 1
             words = [x for x in L if not nl.get(x)]
             good = [(x, y) for x in words for y in words if line0[x] != line0[y]]
-            o = ("L",) + r.choice(good) if good and r.random() < 0.7 else ("L", r.choice(L), r.choice(L))
+            o = ("L",) + r.choice(good) if good and (in_contract or r.random() < 0.7) else ("L", r.choice(L), r.choice(L))
+            if in_contract and not good:
+                o = ("M", r.choice(L), L[-1])
             # the shape the passes use (and the hook judges on real calls): two non-newline chunks of different lines -> the theorem's executable
             # hypothesis swap_lines_guard is expected to hold in the state before the call
             line, ln = {}, 0
@@ -110,7 +142,7 @@ def gen_scenario(r, m, maxlen):
                 GUARD_QUERIES.append((list(ops), o[1], o[2], nid))
         ops.append(o)
         if exp is not None:
-            exp = py_apply(exp, o)
+            exp = py_apply(exp, o, eNL, eCNT)
         cur = parse(model_line(m, ops, nid))
         if cur is None:
             break
@@ -119,7 +151,7 @@ def gen_scenario(r, m, maxlen):
             L = fw
             break          # a chunk was lost or the links disagree: nothing more is done with this list
         L = fw
-    return ops, exp, nid
+    return ops, (exp, dict(eCNT)) if exp is not None else None, nid
 
 
 def correspond(rep, r, n, maxlen=14):
@@ -141,10 +173,10 @@ def correspond(rep, r, n, maxlen=14):
         [("A", 1, 0, 0, 0), ("A", 2, 1, 1, 1), ("A", 3, 2, 1, 2), ("L", 1, 3)],
     ]
     for ops in fixed:
-        exp = []
+        exp, fNL, fCNT = [], {}, {}
         for o in ops:
-            exp = py_apply(exp, o) if exp is not None else None
-        scen.append((ops, exp, max(o[1] for o in ops if o[0] in "AB")))
+            exp = py_apply(exp, o, fNL, fCNT) if exp is not None else None
+        scen.append((ops, (exp, dict(fCNT)) if exp is not None else None, max(o[1] for o in ops if o[0] in "AB")))
     for _ in range(n):
         scen.append(gen_scenario(r, m, maxlen))
     lines = []
@@ -186,9 +218,10 @@ def correspond(rep, r, n, maxlen=14):
         rep.count(key=("listops", text), nontrivial=len(ops) > 2)
         pr = parse(rl)
         if exp is not None:
+            exp, ecnt = exp
             stats["judged_against_python_list"] += 1
             fw = [x for x, _ in pr[0]] if pr else None
-            if fw != exp or pr[1] != exp[::-1]:
+            if fw != exp or pr[1] != exp[::-1] or any(ecnt.get(x, 0) != c for x, c in pr[0]):
                 rep.finding("listops|%s" % text[:80], "chunk list surgery inside its contract does not yield the expected sequence: ops '%s' give forward %s / backward %s, expected %s"
                             % (text, fw, pr[1] if pr else None, exp), {"kind": "listops", "ops": text, "expected": exp})
         else:
